@@ -138,8 +138,14 @@ def call_name(e):
     if c is None:
         return "<indirect>"
     if c.get("trait"):
-        return "<%s as %s>::%s" % (c.get("self_ty"), c["trait"].split("::")[-1], c["name"])
-    return c["def"]
+        return _noloc("<%s as %s>::%s" % (c.get("self_ty"), c["trait"].split("::")[-1], c["name"]))
+    return _noloc(c["def"])
+
+
+def _noloc(s):
+    # closure types print their source position; positions are never part of a summary
+    import re
+    return re.sub(r"\{closure@[^}]*\}", "{closure}", s)
 
 
 def fn_key(f):
